@@ -206,6 +206,33 @@ def fs_path(p): return zl([fs_name_id(x) for x in fs_comps(p)])      # a trailin
 def fs_bytes(h): return zl(list(bytes.fromhex(h)))
 
 
+def fs_is_raw(p):
+    """not a clean relative path (optionally followed by one '/'): has '.', '..', an empty component or a leading '/'"""
+    q = p[:-1] if fs_slash(p) else p
+    return any(x in ("", ".", "..") for x in q.split("/"))
+
+
+def fs_rpath(p):
+    """(rooted, components) of the raw string for Sys.FsNorm.norm"""
+    cs = "; ".join("CEmpty" if x == "" else "CDot" if x == "." else "CDotDot" if x == ".." else "CName %d" % fs_name_id(x) for x in p.split("/"))
+    return "%s [%s]" % (coq_bool(p.startswith("/")), cs)
+
+
+def fs_lex(p):
+    """the oracle's own lexical normalisation (what atPath documents): the components, or None when the path is
+    rooted or leaves the directory"""
+    if p.startswith("/"): return None
+    out = []
+    for x in p.split("/"):
+        if x in ("", "."): continue
+        if x == "..":
+            if not out: return None
+            out.pop()
+        else:
+            out.append(x)
+    return tuple(out)
+
+
 def fs_dirfds(op):
     """(dirfd of the first path argument, dirfd of the second) of a path operation; older case files omit them"""
     k = op[0]
@@ -242,11 +269,22 @@ def fs_coq_op(op):
 FS_PATH_OPS = ("open", "mkdir", "rmdir", "unlink", "rename", "stat")
 
 
-def fs_coq_sop(op):
-    """(op, first path argument ends in '/', second path argument ends in '/') for Sys.FsSlash.step_sl"""
-    t1 = op[0] in FS_PATH_OPS and fs_slash(op[1])
-    t2 = op[0] == "rename" and fs_slash(op[2])
-    return "(%s, %s, %s)" % (fs_coq_op(op), coq_bool(t1), coq_bool(t2))
+def fs_coq_nop(op):
+    """Sys.FsNorm.nop: NOp o t1 t2 (clean paths; t = that path argument ends in '/'), NRaw / NRename for raw paths"""
+    k = op[0]
+    if k not in FS_PATH_OPS:
+        return "NOp (%s) false false" % fs_coq_op(op)
+    t1 = coq_bool(op[1].endswith("/"))
+    d1, d2 = fs_dirfds(op)
+    if k == "rename":
+        t2 = coq_bool(op[2].endswith("/"))
+        if fs_is_raw(op[1]) or fs_is_raw(op[2]):
+            return "NRename %s %s %s %s %s %s" % (zs(d1), fs_rpath(op[1]), t1, zs(d2), fs_rpath(op[2]), t2)
+        return "NOp (%s) %s %s" % (fs_coq_op(op), t1, t2)
+    if fs_is_raw(op[1]):
+        kind = {"open": "(POpen %d %d %d)" % tuple(op[2:5]) if k == "open" else "", "mkdir": "PMkdir", "rmdir": "PRmdir", "unlink": "PUnlink", "stat": "PStat"}[k]
+        return "NRaw %s %s %s %s" % (kind, zs(d1), fs_rpath(op[1]), t1)
+    return "NOp (%s) %s false" % (fs_coq_op(op), t1)
 
 
 def fs_coq_obs(op, ob):
@@ -261,7 +299,7 @@ def fs_coq_obs(op, ob):
 
 def fs_coq_case(c):
     tree = "; ".join("(%s, %s)" % (fs_path(t[0]), "None" if t[1] == "dir" else "Some %s" % fs_bytes(t[2])) for t in (c["tree"] or []))
-    return "([%s], [%s], [%s])" % ("; ".join(fs_coq_sop(o) for o in c["ops"]),
+    return "([%s], [%s], [%s])" % ("; ".join(fs_coq_nop(o) for o in c["ops"]),
                                    "; ".join(fs_coq_obs(o, b) for o, b in zip(c["ops"], c["obs"])), tree)
 
 
@@ -399,9 +437,18 @@ def fs_oracle(c, stats=None):
                 continue
         # ---- path operations
         d1, d2 = fs_dirfds(op)
-        sl1, sl2 = fs_slash(op[1]), (k == "rename" and fs_slash(op[2]))
+        sl1, sl2 = op[1].endswith("/"), (k == "rename" and op[2].endswith("/"))
         count("path_ops")
         if sl1 or sl2: count("trailing_slash_ops")
+        raw = fs_is_raw(op[1]) or (k == "rename" and fs_is_raw(op[2]))
+        if raw: count("raw_path_ops")
+        # a path that is rooted or leaves the directory of its descriptor is refused (EPERM) before anything else
+        lex1 = fs_lex(op[1])
+        if lex1 is None:
+            count("raw_path_escapes")
+            if en != E["PERM"]: return bad("%r leaves the directory of the descriptor, expected EPERM" % op[1])
+            continue
+        if lex1 == (): sl1 = True     # the directory of the descriptor itself: "." must be a directory, like "name/"
         b = base(d1)
         if b == "badf":
             if en != E["BADF"]: return bad("directory descriptor is not open, expected EBADF")
@@ -409,9 +456,29 @@ def fs_oracle(c, stats=None):
         if b == "notdir":
             if ok: return bad("directory descriptor is a file")
             continue
-        full = b + fs_comps(op[1])
+        full = b + lex1
+        lex2 = fs_lex(op[2]) if k == "rename" else ()
+        if lex2 is None:
+            count("raw_path_escapes")
+            if en != E["PERM"]: return bad("%r leaves the directory of the descriptor, expected EPERM" % op[2])
+            continue
+        if raw:
+            # POSIX resolves ".", ".." and empty components one at a time in directories that must exist; atPath
+            # normalises lexically. Where the two differ the call is judged as implemented, and counted.
+            def posix_walk(bb, p):
+                cur = list(bb)
+                for x in (p[:-1] if p.endswith("/") else p).split("/"):
+                    if node(tuple(cur)) != "dir": return False
+                    if x == "..": cur.pop()
+                    elif x not in ("", "."): cur.append(x)
+                return True
+            if ok and (not posix_walk(b, op[1]) or (k == "rename" and base(d2) not in ("badf", "notdir") and not posix_walk(base(d2), op[2]))):
+                count("lexical_resolution_succeeds_where_posix_fails")
         r = resolve(full)
         isfile = isinstance(r, _File)
+        if full == () and k in ("mkdir", "rmdir", "unlink", "rename"):
+            if ok: return bad("changed the mount point itself")
+            continue                                 # the mount point itself: outside the property (and not generated)
         rclass = "file" if isfile else r
         via = d1 != 3                                # an open directory descriptor other than the pre-open
         if k == "rename":
@@ -423,7 +490,7 @@ def fs_oracle(c, stats=None):
             if sl1 or sl2: count("via_dirfd_trailing_slash")
             if (sl1 or sl2) and isfile: count("via_dirfd_trailing_slash_on_file")
         if sl1: count("trailing_slash_on_" + ("missing" if rclass in ("noent", "notdir", "free") else rclass))
-        if sl1 and isfile and ok and not (k == "rename" and sl2 and b2 not in ("badf", "notdir") and full == b2 + fs_comps(op[2])):
+        if sl1 and isfile and ok and not (k == "rename" and sl2 and b2 not in ("badf", "notdir") and full == b2 + lex2):
             return bad("%r names a regular file: a name with a trailing slash resolves only to a directory" % op[1])
         if k == "open":
             ofl, fdf, rights = op[2], op[3], op[4]
@@ -479,7 +546,10 @@ def fs_oracle(c, stats=None):
             if b2 == "notdir":
                 if ok: return bad("second directory descriptor is a file")
                 continue
-            new = b2 + fs_comps(op[2])
+            new = b2 + lex2
+            if new == ():
+                if ok: return bad("changed the mount point itself")
+                continue
             r2 = resolve(new)
             if sl2: count("trailing_slash_on_" + ("missing" if r2 in ("noent", "notdir", "free") else "file" if isinstance(r2, _File) else r2))
             if full == new:
@@ -527,7 +597,7 @@ def fs_sig(c, j):
 
 STREAMS = {
     "table": dict(mod="Sys.DescTable", case=table_coq_case, oracle=table_oracle, sig=table_sig, shard=50),
-    "fs": dict(mod="Sys.FsModel Sys.FsSlash", case=fs_coq_case, oracle=fs_oracle, sig=fs_sig, shard=100, ctype="case_sl", mism="mismatches_sl"),
+    "fs": dict(mod="Sys.FsModel Sys.FsSlash Sys.FsNorm", case=fs_coq_case, oracle=fs_oracle, sig=fs_sig, shard=100, ctype="case_n", mism="mismatches_n"),
     "readdir": dict(mod="Sys.Dirent", case=rd_coq_case, oracle=rd_oracle, sig=rd_sig, shard=60, dirs=rd_dir_def, prelude=PACK_PRELUDE),
 }
 
@@ -581,15 +651,15 @@ def run(tier, seed):
     ck = Check("C16", tier, seed)
     ck.trusted += ["hand transcription of internal/descriptor/table.go in coq/Sys/DescTable.v (generic, slice based: outside go2coq), tied by the table stream incl. final masks words and len(items)",
                    "hand transcription of DirentCache.Read/cachedDirents (internal/sys/fs.go) and fdReaddirFn/maxDirents/writeDirents/writeDirent (imports/wasi_snapshot_preview1/fs.go) in coq/Sys/Dirent.v, tied by the readdir stream (errno, bufused and every byte of the buffer, through the real host function)",
-                   "coq/Sys/FsModel.v + coq/Sys/FsSlash.v (trailing-slash guard in front of FsModel.step) are a reference model (not a transcription) of path_open/fd_*/path_* as implemented by wazero over sysfs over the Linux kernel; tied by the fs stream (errno, outputs, opened fd numbers, final host tree), with about 1 path argument in 6 ending in '/' and about a third of the path operations going through a directory descriptor other than the pre-open with a path relative to it",
+                   "coq/Sys/FsModel.v + coq/Sys/FsSlash.v (trailing-slash guard in front of FsModel.step) + coq/Sys/FsNorm.v (lexical normalisation of '.', '..', empty components in front of that; about 1 path argument in 8) are a reference model (not a transcription) of path_open/fd_*/path_* as implemented by wazero over sysfs over the Linux kernel; tied by the fs stream (errno, outputs, opened fd numbers, final host tree), with about 1 path argument in 6 ending in '/' and about a third of the path operations going through a directory descriptor other than the pre-open with a path relative to it",
                    "tools/go2coq for the constants DirentSize, largestDirent, errno numbers, O_*/FD_APPEND/FILETYPE_* (regenerated from internal/wasip1 and imports/wasi_snapshot_preview1)",
                    "the host kernel, the Go os package and the temp file system are the other half of the implementation under the fs and readdir streams",
                    "harness/c16 (Go, proxy guest module) and checks/c16.py (case conversion, oracles)"]
     ck.assumptions += ["descriptor table: keys are int32, a run stops at the first Go panic (only Insert on a table holding all 2^31 keys)",
                        "fd_readdir: the directory does not change while it is read; sys.File.Readdir(n) returns min(n, remaining) entries; fewer than 2^62 entries; names shorter than 2^32-48 bytes; the buffer lies inside guest memory",
-                       "fs model: one mount, no symlinks/hard links, paths are clean relative names optionally followed by one '/', no '.'/'..'/empty components, stdio descriptors only take part in close/renumber, creating/removing/renaming the mount point itself is unmodelled",
+                       "fs model: one mount, no symlinks/hard links, paths are relative names optionally followed by '/', with '.', '..' and empty components normalised lexically as atPath does (Sys/FsNorm.v; rooted or escaping paths -> EPERM), stdio descriptors only take part in close/renumber, creating/removing/renaming the mount point itself is unmodelled",
                        "fs stream does not generate a rename between two textually different spellings of the same path with equal trailing-slash flags (\"dir//x\" vs \"dir/x\", possible only through a descriptor opened as \"dir/\"): sysfs.rename short-cuts textually identical names only and the model identifies a name with its component list",
-                       "fs model follows wazero where it departs from POSIX: pread/pwrite with a negative offset -> EIO, pwrite on an O_APPEND descriptor -> EIO, mkdir below a file -> ENOENT, rename of a path onto the identical path succeeds even if it does not exist (also \"x/\" onto \"x/\" when x is a regular file); with a trailing slash: open with O_CREAT -> EISDIR whatever the name is, rename of a regular file from or to a name ending in '/' -> ENOTDIR"]
+                       "fs model follows wazero where it departs from POSIX: pread/pwrite with a negative offset -> EIO, pwrite on an O_APPEND descriptor -> EIO, mkdir below a file -> ENOENT, rename of a path onto the identical path succeeds even if it does not exist (also \"x/\" onto \"x/\" when x is a regular file); with a trailing slash: open with O_CREAT -> EISDIR whatever the name is, rename of a regular file from or to a name ending in '/' -> ENOTDIR; '..' and '.' are removed lexically before the file system is consulted (POSIX: component by component)"]
     proofs_ok = ck.proofs()
     quick = tier == "quick"
     n_table = 100 if quick else 4000
@@ -658,7 +728,8 @@ def run(tier, seed):
     same = sum(1 for c in by.get("fs", []) for op, ob in zip(c["ops"], c["obs"])
                if op[0] == "rename" and op[1] == op[2] and fs_dirfds(op)[0] == fs_dirfds(op)[1] and ob[0] == 0)
     ck.extra["wazero_vs_posix"] = {"rename(p, p) returned success (POSIX: ENOENT when p does not exist; modelled as implemented)": same,
-                                   "... of which p is missing, or is \"file/\" (POSIX: ENOENT / ENOTDIR); nothing changes either way": fs_stats.get("rename_same_name_shortcut", 0)}
+                                   "... of which p is missing, or is \"file/\" (POSIX: ENOENT / ENOTDIR); nothing changes either way": fs_stats.get("rename_same_name_shortcut", 0),
+                                   "path with '.', '..' or an empty component on which the call succeeded although POSIX resolution fails (\"missing/../a\", \"file/.\"): atPath's path.Clean is lexical; judged as implemented": fs_stats.get("lexical_resolution_succeeds_where_posix_fails", 0)}
     reported = set()
     allmism = eval_streams(ck, by, big=not quick)
     if allmism is None:
